@@ -7,7 +7,8 @@ class SymTD:
 
     The arithmetic, ordering and truth-value protocol of timedelta over exact integers:
     construction from the keyword units, +, -, unary -, abs, * and // by an integer, // and % by a
-    duration, ordering, ==/!=, truth value (timedelta(0) is falsy), total_seconds.  (Session 2: the truth
+    duration, ordering, ==/!=, truth value (timedelta(0) is falsy), / by a duration or a number, the normalised
+    days/seconds/microseconds components, total_seconds.  (Session 2: the truth
     value and subtraction were missing and a seeded change relying on `if remaining:` went unnoticed by
     the kernel; any other operation raises TypeError, which makes the obligation inconclusive, not silent.)"""
 
@@ -69,6 +70,24 @@ class SymTD:
     def __ne__(self, o):
         return not isinstance(o, SymTD) or self.us != o.us
 
+    def __truediv__(self, o):
+        if isinstance(o, SymTD):
+            return self.us / o.us  # a float in CPython; an exact rational here
+        return SymTD(_us=round(self.us / o))  # CPython rounds the quotient half-to-even to whole microseconds
+
+    # normalised components, as timedelta exposes them (0 <= seconds < 86400, 0 <= microseconds < 10**6, days may be negative)
+    @property
+    def days(self):
+        return self.us // 86400000000
+
+    @property
+    def seconds(self):
+        return (self.us % 86400000000) // 1000000
+
+    @property
+    def microseconds(self):
+        return self.us % 1000000
+
     def __lt__(self, o):
         return self.us < o.us
 
@@ -91,4 +110,4 @@ class SymTD:
         return "SymTD(us=%r)" % (self.us,)
 
     def total_seconds(self):
-        return self.us / 1000000
+        return self.us / 1000000  # exact; CPython's float has 53 bits, enough for every duration used here
